@@ -280,12 +280,8 @@ def kani_counterexamples(kres, wr, work, kani_cfgs, failed_names):
         env['VERIF_REPLAY_HARNESS'] = ce['harness']
         env['VERIF_REPLAY_VALS'] = ';'.join(','.join(str(b) for b in v) for v in ce['concrete_vals'])
         env['CARGO_NET_OFFLINE'] = 'true'
-        try:
-            p = subprocess.run(['cargo', 'test', '--lib', '--offline', k['replay_test'], '--', '--nocapture', '--test-threads', '1'],
-                               cwd=wr, env=env, capture_output=True, text=True, timeout=1500)
-            t = p.stdout + p.stderr
-        except subprocess.TimeoutExpired:
-            t = 'native replay timed out'
+        rc_, t = common.run_group(['cargo', 'test', '--lib', '--offline', k['replay_test'], '--', '--nocapture', '--test-threads', '1'],
+                                  cwd=wr, env=env, timeout=900)
         m = re.search(r"panicked at [^\n]*\n?([^\n]*)", t)
         ce['native_replay'] = {'cmd': 'VERIF_REPLAY_HARNESS=%s VERIF_REPLAY_VALS=%s cargo test --lib --offline %s -- --nocapture'
                                % (ce['harness'], env['VERIF_REPLAY_VALS'], k['replay_test']),
@@ -298,7 +294,7 @@ def kani_counterexamples(kres, wr, work, kani_cfgs, failed_names):
 # ---------------------------------------------------------------------------------------------
 # native oracle for Verus units (no counterexample from the verifier)
 
-def run_oracle(o, wr, seed, failed_names, iters):
+def run_oracle(o, wr, seed, failed_names, iters, timeout=2400):
     env = dict(os.environ)
     env['VERIF_SEED'] = str(seed)
     env['VERIF_ITERS'] = str(iters)
@@ -306,11 +302,9 @@ def run_oracle(o, wr, seed, failed_names, iters):
     env['CARGO_NET_OFFLINE'] = 'true'
     cmd = ['cargo', 'test', '--lib', '--offline', o['test'], '--', '--nocapture', '--test-threads', '1']
     t0 = time.time()
-    try:
-        p = subprocess.run(cmd, cwd=wr, env=env, capture_output=True, text=True, timeout=2400)
-        t = p.stdout + p.stderr
-    except subprocess.TimeoutExpired:
-        t = 'oracle timed out'
+    rc, t = common.run_group(cmd, cwd=wr, env=env, timeout=timeout)
+    if rc is None:
+        t += '\noracle timed out after %d s (a change that makes the code under test loop shows up like this)' % timeout
     fails = []
     for m in re.finditer(r'VERIF-ORACLE-FAIL obligation=(\S+) (.*)$', t, re.M):
         fails.append({'obligation': m.group(1), 'input': m.group(2)[:2000]})
@@ -380,7 +374,7 @@ def main():
         log('[%s] bounded native stand-in %s (%s) ...' % (pid, bn['unit'], bn['bound']))
         env_extra = dict(bn.get('env_thorough', {})) if tier == 'thorough' else dict(bn.get('env', {}))
         os.environ.update(env_extra)
-        orc = run_oracle(bn, wr, seed, [], 0)
+        orc = run_oracle(bn, wr, seed, [], 0, timeout=600 if tier == 'quick' else 5400)
         bnres.append({'unit': bn['unit'], 'bound': bn['bound'] if tier == 'quick' else bn.get('bound_thorough', bn['bound']),
                       'cases': orc['cases'], 'ran': orc['ran'], 'fails': orc['fails'], 'wall_s': round(orc['wall_s'], 1), 'cmd': orc['cmd'],
                       'tail': orc['tail'][-600:]})
@@ -591,8 +585,35 @@ def write_evidence(pid, P, tier, seed, wall, vres, kres, obligations, discharged
     for r in vres:
         functions += r['functions']
     if kres:
+        located = {}
+
+        def locate(unit, fn_text):
+            """file:line and sha256 of the real items a harness puts under contract (best effort, by name)"""
+            mount = next((k['mount'] for k in P.get('kani', []) if k['unit'] == unit), None)
+            if not mount or not fn_text:
+                return []
+            key = (mount, fn_text)
+            if key in located:
+                return located[key]
+            out = []
+            try:
+                from rsx import Source
+                src = Source(os.path.join(common.REPO, mount))
+                for ty, name in re.findall(r'(\w+)::(\w+)', fn_text):
+                    for imp in [i for i in src.items if i.kind == 'impl' and i.name == ty]:
+                        from rsx import parse_items
+                        for it in parse_items(src.toks, imp.body_open + 1, imp.last):
+                            if it.kind == 'fn' and it.name == name:
+                                out.append({'item': '%s::%s' % (ty, name), 'source': '%s:%d' % (mount, src.line_of(src.toks[it.kw].start)),
+                                            'sha256_16': src.sha(it)})
+            except Exception as e:  # evidence nicety only
+                out = [{'item': fn_text, 'note': 'not located: %s' % e}]
+            located[key] = out
+            return out
+
         for h in kres['harnesses']:
             functions.append({'fn': h.get('fn') or h['harness'], 'backend': 'kani/cbmc', 'harness': h['harness'],
+                              'real_items': locate(h['unit'], h.get('fn') or ''),
                               'status': 'contract (complete harness)' if h['kind'] == 'complete' else 'BOUNDED: ' + str(h.get('bound')),
                               'checks': h['checks'], 'time_s': h['time_s']})
     assumptions = list(P.get('assumptions', []))
@@ -670,9 +691,8 @@ def replay_file(pid, P, path, work):
         env = dict(os.environ)
         env['VERIF_REPLAY_HARNESS'] = ce['harness']
         env['VERIF_REPLAY_VALS'] = ';'.join(','.join(str(b) for b in v) for v in ce['concrete_vals'])
-        p = subprocess.run(['cargo', 'test', '--lib', '--offline', k['replay_test'], '--', '--nocapture', '--test-threads', '1'],
-                           cwd=wr, env=env, capture_output=True, text=True)
-        t = p.stdout + p.stderr
+        rc_, t = common.run_group(['cargo', 'test', '--lib', '--offline', k['replay_test'], '--', '--nocapture', '--test-threads', '1'],
+                                  cwd=wr, env=env, timeout=900)
         m = re.search(r'panicked at [^\n]*\n?[^\n]*', t)
         log('[%s] %s: %s' % (pid, ce['harness'], m.group(0) if m else 'no panic on this tree'))
         if m and 'VERIF-' not in m.group(0):
